@@ -3,6 +3,7 @@ package main
 // Compilation of contract expressions to symbolic values in an execution context.
 
 import (
+	"go/ast"
 	"fmt"
 	"go/constant"
 	"go/token"
@@ -1319,6 +1320,31 @@ func (x *Exec) lookupLocalAt(fr *Frame, at *ssa.BasicBlock, upto int, st *State,
 			if a, ok := fr.env[l]; ok && a.K == KPtr {
 				return x.loadLoc(st, a.Loc), true
 			}
+		}
+	}
+	// last resort: a variable with exactly one definition in the whole function (x := e in some
+	// branch that does not dominate this point) denotes that definition's value; a clause using it
+	// must itself be conditional on the branch having been taken
+	var only *ssa.DebugRef
+	n := 0
+	for _, b := range fr.fn.Blocks {
+		for _, ins := range b.Instrs {
+			if d, ok := ins.(*ssa.DebugRef); ok && !d.IsAddr && identName(d) == name {
+				if _, isIdent := d.Expr.(*ast.Ident); isIdent {
+					if only == nil || only.X != d.X {
+						n++
+						only = d
+					}
+				}
+			}
+		}
+	}
+	if n == 1 {
+		if cst, ok := only.X.(*ssa.Const); ok {
+			return x.constValue(st, cst), true
+		}
+		if v, ok := fr.env[only.X]; ok {
+			return v, true
 		}
 	}
 	return Value{}, false
